@@ -9,7 +9,6 @@ NA = {
  "C13": "quantifies over thread schedules of std::thread + mpsc; Kani has no concurrency model and do_run is one monolithic function with no sequential unit to harness",
  "C16": "constructions are driven by a ChaCha8 stream and build structure step by step (symbolic seed => symbolic structure, P4); the seed search uses rayon",
  "C17": "every quantified dimension (operation history on a matrix) is heap structure; with a symbolic pre-state clear_*/toggle/set_* do not finish (probe P16, 15 min) and with concrete histories nothing is left for the solver to decide",
- "C19": "exported C symbols cannot be called under Kani (probe P13: foreign C function not supported); constructors parse alist text (P12) or read files",
  "C20": "observable is process-level I/O (clap, stdout, files, exit status); whole-program runs are outside solver-based checking of units",
 }
 
@@ -51,6 +50,9 @@ C["C14"] = ("BPSK: scale pinned bit-for-bit by the sample 1.0 and bit-identical 
 C["C15"] = ("Interleaver index law and inverse for all contents of each listed shape (both directions, u8/u32); puncturer keep/restore/rate/indivisible-length-error for all contents of each listed pattern and block size.",
             BASE_NOTE + "Shapes and patterns are concrete per harness (they are allocation structure).",
             "Kani/CBMC bounded model checking (SAT) of Interleaver/Puncturer with symbolic contents")
+C["C19"] = ("Wrapper logic only: the C API decoder/encoder objects behind the extern \"C\" functions (driven through verif-hooks wrappers) are decided for ALL LLR/bit buffers with a checker-supplied scripted decoder of arbitrary behaviour: return value = iterations on success / -1 on failure, output = leading bits of exactly the decoder's word, decoder called once with the limit and the depunctured LLRs (exact zeros in removed blocks, f32 widened exactly); encoder output = punctured systematic codeword for every dense generator part and input buffer.",
+            BASE_NOTE + "NOT covered: the extern \"C\" functions themselves (pointer/length conversion), constructors (alist/name/pattern parsing, files, null on error); independence of repeated calls reduces to C10.",
+            "Kani/CBMC bounded model checking (SAT) of the C-API wrapper methods with symbolic buffers and a scripted trait-object decoder")
 C["C18"] = ("from_str on every ASCII string of length <= 48 (symbolic): Ok iff one of the 36 pinned names, with the right variant; Display and the clap value list give back the identical string for each name; each factory row behaves like the generic decoder of the documented arithmetic and schedule on symbolic LLRs, and quantises at the named working precision (width witness on every f64).",
             BASE_NOTE + "Pairing on small matrices with the LLR domain s*2^-e; float rows under SURROGATE math; flooding A-Min* rows are paired on a one-check matrix in the quick tier (arithmetic and width, not schedule).",
             "Kani/CBMC bounded model checking (SAT): symbolic-string parsing; differential factory row vs generic decoder")
